@@ -1,10 +1,10 @@
 """Human-written texts for MANIFEST.json."""
 ENGINES = [
-    {"name": "S3-evmsim", "path": "/verif/sim/evmsim", "serves_properties": ["C02", "C05", "C12"],
+    {"name": "S3-evmsim", "path": "/verif/sim/evmsim", "serves_properties": ["C02", "C05", "C12", "C15"],
      "kind_free_text": "seeded EVM/state simulation through the real core.ApplyTransaction: grammar-built contract DAGs, every frame 'crashed' by gas cut at each recorded interpreter step / REVERT / INVALID, world digest vs deep-copy model; block batch on a drawn storage engine"},
     {"name": "S4-poolsim", "path": "/verif/sim/poolsim", "serves_properties": ["C19"],
      "kind_free_text": "controlled-scheduler simulation of the real TxPool: tx_pool.go is AST-rewritten at build time (tools/rewrite) so that every lock, channel op, select, go statement, ticker, clock read and pool-map range is a scheduler decision drawn from the tape; real goroutines, one runnable at a time, inside a synctest bubble; optional -race build"},
-    {"name": "S5-chainsim", "path": "/verif/sim/chainsim", "serves_properties": ["C01", "C03", "C04", "C06", "C07", "C08", "C09", "C10", "C11", "C13", "C14", "C16", "C20"],
+    {"name": "S5-chainsim", "path": "/verif/sim/chainsim", "serves_properties": ["C01", "C03", "C04", "C06", "C07", "C08", "C09", "C10", "C11", "C13", "C14", "C15", "C16", "C20"],
      "kind_free_text": "whole-node deterministic simulation: three real core.Core (prime/region/zone) in one synctest bubble; seeded scheduler owns mining, head selection (forks/reorgs), delivery, storage (SimDisk) and the worker refresh; rapid tape = replay"},
     {"name": "S2-triesim", "path": "/verif/sim/triesim", "serves_properties": ["C18"],
      "kind_free_text": "seeded trie histories with restart / crash-at-write-prefix / proof-corruption faults against a map model with per-root snapshots"},
@@ -137,5 +137,11 @@ META = {
         "technique": "deterministic whole-node simulation; in-flight rewriting of every client-signed transaction (single signed field / signature value / chain id) checked against sender recovery, the live pool and the node's Qi validation",
         "text": "Exploration over the transactions real runs sign: no single-field rewrite, signature edge value or foreign chain id keeps the original sender; the sender cache is chain-id safe; Qi transactions are bound to their inputs, outputs, data and chain id.",
         "note": "The signature algebra itself is a pure function and is only sampled; stated in the evidence.",
+    },
+    "C15": {
+        "engine": "S5-chainsim", "design_ref": "DESIGN.md section 4 C15",
+        "technique": "deterministic simulation with frame-corruption faults on real traffic through the production decode/validation pipeline (no-panic oracle) plus a step tracer that prices every memory expansion against the gas charged",
+        "text": ("Exploration: corrupted block, header and transaction frames derived from the traffic of seeded whole-node runs are fed to the production receive path; and seeded EVM programs with gas cuts are traced step by step to check that interpreter memory only grows through steps charged at least the expansion price."),
+        "note": "One defect repaired (pool panic on a crafted Qi transaction), one open known finding (ETX memory window is not priced). Decoders not on the block/transaction path (request/response, AuxPoW, RLP, JSON) and the memory-proportionality clause are not decided - stated in the evidence.",
     },
 }
